@@ -38,6 +38,16 @@ CLAIMED = {
    text="The structural clause 'every statement is a fixed template plus validated identifiers' decided for every SQL sink of pkg/database (whole module in thorough): the text argument of each sink and Build's result is built only from constants, sanitiser results, numeric formatting and values a guard proves to be one of finitely many constants; every sanitiser validates with an anchored pattern whose language excludes quote/semicolon/comment characters and returns non-empty text only on the match edge, built from the validated value; sibling drivers validate the same identifier parameters; no raw-SQL method is on the provider allow-list.",
    note="Does not cover execution on a real engine, nor adequacy of the column-type grammar beyond its character set. Heap is field-insensitive (field loads tainted). Trusted: go/types, go/ssa, regexp/syntax, the sanitiser naming role ([Ss]anitize* returning (T, error)).",
    ref="DESIGN.md §3 C13"),
+ "C17": dict(
+   technique="static analysis: SSA typestate taint (raw -> resolved -> confined) on every file sink of response-writing functions, guard-edge cut on isSubPath, shape rule on isSubPath, who-may-use rule for generic file servers",
+   text="Structural necessary conditions decided at every site: each path opened/read/listed by a response-writing function of pkg/web is a filepath.EvalSymlinks result that passed isSubPath(resolved root, path) on every path to the sink (parameters judged at all call sites; any Join/concat after the check is raw again); the server's root is stored as EvalSymlinks(Abs(root)); isSubPath accepts only child==parent or a separator-terminated prefix and uses no other string predicate; no http.FileServer/http.Dir/http.ServeFile anywhere in non-test code; `@ static` handlers are web.StaticFileServer.",
+   note="Does not cover TOCTOU between resolve and open, URL decoding by net/http, hard links/mounts. SendFile's root is only Abs-ed (advisory, availability not confinement). Trusted: go/types, go/ssa.",
+   ref="DESIGN.md §3 C17"),
+ "C14": dict(
+   technique="static analysis: typestate/ordering path queries on *sql.Tx (callback error/success edges, deferred recover closures), single-statement rule for BulkInsert, context-key def-use",
+   text="Structural necessary conditions decided for every function that begins a transaction: rollback on the callback's error edge on all paths and no commit there; commit on the success edge; a deferred function that itself calls recover(), rolls back on the recovered edge and re-panics with the recovered value; no commit in a deferred function without its own recover()==nil test; no commit after rollback; each driver's BulkInsert executes at most one statement unless inside a transaction; a *sql.Tx stored in a context is read back somewhere.",
+   note="Does not cover what the database does on commit/rollback, nor cancelled contexts inside the driver. Known finding: txContextKey is written and never read (ORM calls inside ORM.Transaction run outside the transaction). Trusted: go/types, go/ssa.",
+   ref="DESIGN.md §3 C14"),
 }
 
 NA_REASONS = {}
